@@ -122,7 +122,13 @@ def run_shards(prop, specs, nproc, timeout):
                     if time.monotonic() - t0 > timeout:
                         p.kill()
                         p.wait()
-                        out[i] = (spec, None, "watchdog %ss fired" % timeout)
+                        part = None
+                        try:
+                            with open(rp + ".partial") as f:
+                                part = json.load(f)
+                        except Exception:
+                            part = None
+                        out[i] = (spec, part, "watchdog %ss fired" % timeout)
                         errf.close()
                         del running[i]
                     continue
@@ -162,6 +168,23 @@ def shard_main(argv):
     with open(sp) as f:
         spec = json.load(f)
     acc = Acc(seed=spec.get("seed", 0))
+    # what the shard has witnessed so far is written out every half minute: if the watchdog has to end a shard that a change of the code under
+    # test made crawl, the violations it had already seen still count (and nothing else of it does)
+    import threading
+
+    def checkpoint():
+        import copy
+        while True:
+            time.sleep(30)
+            try:
+                part = {"evaluations": acc.evaluations, "nontrivial": [], "samples": [], "sets": {},
+                        "violations": copy.deepcopy(acc.violations), "counters": dict(acc.counters)}
+                with open(rp + ".partial.tmp", "w") as f:
+                    json.dump(part, f, default=str)
+                os.replace(rp + ".partial.tmp", rp + ".partial")
+            except Exception:
+                pass
+    threading.Thread(target=checkpoint, daemon=True).start()
     mod.run_shard(spec, acc)
     with open(rp + ".tmp", "w") as f:
         json.dump(acc.dump(), f, default=str)
@@ -210,8 +233,9 @@ def main(argv):
     sets = {}
     errors = []
     for spec, res, err in results:
-        if res is None:
+        if err:
             errors.append(err)
+        if res is None:
             continue
         evaluations += res["evaluations"]
         nontrivial.update(res["nontrivial"])
